@@ -22,3 +22,7 @@ import hypercorn  # noqa: E402
 
 if not hypercorn.__file__.startswith(SRC):
     raise SystemExit(f"harness error: hypercorn imported from {hypercorn.__file__}, wanted {SRC}")
+
+import warnings  # noqa: E402
+
+warnings.filterwarnings("ignore", category=RuntimeWarning, message="coroutine .* was never awaited")
